@@ -113,6 +113,9 @@ func (i *interpreter) where() string {
 
 func (i *interpreter) runInits() {
 	for _, pkg := range i.ld.initOrder {
+		if i.ld.initExtraPkg[pkg] && i.p.ex.cfg.NoInitExtra {
+			continue
+		}
 		if f := pkg.Func("init"); f != nil {
 			call(i, nil, token.NoPos, f, nil)
 		}
